@@ -13,7 +13,10 @@ use std::fmt::Write as _;
 
 pub const NSLOTS: usize = 8192;
 pub const NAME_LEN: usize = 88;
+#[cfg(not(miri))]
 pub const RECORD_BYTES: usize = 48 << 20;
+#[cfg(miri)]
+pub const RECORD_BYTES: usize = 256 << 10;
 pub const INTENT_WORDS: usize = 12;
 
 #[repr(C)]
@@ -104,6 +107,17 @@ pub fn install_panic_hook() {
   }));
 }
 
+/// Under Miri there is no fork and no shared mapping: a plain zeroed heap block.
+#[cfg(miri)]
+pub fn alloc_shared() -> *mut Shared {
+  unsafe {
+    let layout = std::alloc::Layout::new::<Shared>();
+    let p = std::alloc::alloc_zeroed(layout);
+    p as *mut Shared
+  }
+}
+
+#[cfg(not(miri))]
 pub fn alloc_shared() -> *mut Shared {
   unsafe {
     let size = std::mem::size_of::<Shared>();
